@@ -18,6 +18,12 @@ import "golang.org/x/tools/go/ssa"
 
 func isHandledBuiltinCall(instruction ssa.CallInstruction) bool {
 	if instruction.Common().Value != nil {
+		// A function or method that merely has the name of a builtin (e.g. a method named delete or max) is not a builtin
+		if _, isBuiltin := instruction.Common().Value.(*ssa.Builtin); !isBuiltin {
+			// Special case: the call to Error() of the builtin error interface
+			return instruction.Common().IsInvoke() && instruction.Common().Method.Name() == "Error" &&
+				len(instruction.Common().Args) == 0
+		}
 		switch instruction.Common().Value.Name() {
 		// for append, copy we simply propagate the taint like in a binary operator
 		case "ssa:wrapnilchk":
@@ -40,11 +46,6 @@ func isHandledBuiltinCall(instruction ssa.CallInstruction) bool {
 			return false
 
 		default:
-			// Special case: the call to Error() of the builtin error interface
-			if instruction.Common().IsInvoke() && instruction.Common().Method.Name() == "Error" &&
-				len(instruction.Common().Args) == 0 {
-				return true
-			}
 			return false
 		}
 	}
@@ -62,6 +63,16 @@ func doBuiltinCall(t *IntraAnalysisState, callValue ssa.Value, callCommon *ssa.C
 		return false
 	}
 	if callCommon.Value != nil {
+		if _, isBuiltin := callCommon.Value.(*ssa.Builtin); !isBuiltin {
+			// Special case: the call to Error() of the builtin error interface
+			if callCommon.IsInvoke() &&
+				callCommon.Method.Name() == "Error" &&
+				len(callCommon.Args) == 0 {
+				simpleTransfer(t, instruction, callCommon.Value, callValue)
+				return true
+			}
+			return false
+		}
 		switch callCommon.Value.Name() {
 		// for append, copy we simply propagate the taint like in a binary operator
 		case "ssa:wrapnilchk":
@@ -95,14 +106,11 @@ func doBuiltinCall(t *IntraAnalysisState, callValue ssa.Value, callCommon *ssa.C
 			return true
 
 		case "complex", "min", "max":
-			if len(callCommon.Args) == 2 {
-				f1 := callCommon.Args[1]
-				f2 := callCommon.Args[0]
-				simpleTransfer(t, instruction, f1, callValue)
-				simpleTransfer(t, instruction, f2, callValue)
-				return true
+			// min and max take any number of arguments (at least one)
+			for _, arg := range callCommon.Args {
+				simpleTransfer(t, instruction, arg, callValue)
 			}
-			return false
+			return true
 
 		// for len, imag, real we also propagate the taint. This may not be necessary
 		case "len", "imag", "real":
@@ -125,13 +133,6 @@ func doBuiltinCall(t *IntraAnalysisState, callValue ssa.Value, callCommon *ssa.C
 			// NOTE: Unsoundness is reported by reportUnsoundFeatures
 			return true
 		default:
-			// Special case: the call to Error() of the builtin error interface
-			if callCommon.IsInvoke() &&
-				callCommon.Method.Name() == "Error" &&
-				len(callCommon.Args) == 0 {
-				simpleTransfer(t, instruction, callCommon.Value, callValue)
-				return true
-			}
 			return false
 		}
 	}
